@@ -44,25 +44,40 @@ class Facts:
 
     def __init__(self, nonneg=()):
         self.g = [to_rat(x) for x in nonneg]
+        self._memo = {}
 
     def add(self, e):
         self.g.append(to_rat(e))
+        self._memo = {}
 
     def nonneg(self, e) -> bool:
         e = to_rat(e)
         if e.is_const():
             return e.const_value() >= 0
         n = len(self.g)
-        for lam in itertools.product((0, 1, 2), repeat=n):
-            if sum(lam) == 0 or sum(lam) > 4:
-                continue
-            r = e
-            for l_, g in zip(lam, self.g):
-                if l_:
-                    r = r - g * l_
-            if r.is_const() and r.const_value() >= 0:
-                return True
-        return False
+        key = e.key()
+        hit = self._memo.get(key)
+        if hit is not None:
+            return hit
+        ok = False
+        # (i) every subset with unit multipliers, (ii) small combinations with multipliers up to 2
+        spaces = [itertools.product((0, 1), repeat=n)] if n <= 14 else []
+        spaces.append(lam for lam in itertools.product((0, 1, 2), repeat=min(n, 8)) if 2 in lam and sum(lam) <= 4)
+        for space in spaces:
+            for lam in space:
+                if not any(lam):
+                    continue
+                r = e
+                for l_, g in zip(lam, self.g):
+                    if l_:
+                        r = r - g * l_
+                if r.is_const() and r.const_value() >= 0:
+                    ok = True
+                    break
+            if ok:
+                break
+        self._memo[key] = ok
+        return ok
 
     def positive(self, e) -> bool:
         return self.nonneg(to_rat(e) - 1)  # integer-valued forms
